@@ -6,6 +6,7 @@ import Vorbis.Driver.C02
 import Vorbis.Driver.C15
 import Vorbis.Driver.C11
 import Vorbis.Driver.C07
+import Vorbis.Driver.C01
 /-- `vdriver <stream>`: the executable model, one line in / canonical lines out (DESIGN §3.2). -/
 def main (args : List String) : IO UInt32 := do
   match args with
@@ -17,4 +18,5 @@ def main (args : List String) : IO UInt32 := do
   | ["c15"] => Vorbis.Driver.C15.main; return 0
   | ["c11"] => Vorbis.Driver.C11.main; return 0
   | ["c07"] => Vorbis.Driver.C07.main; return 0
+  | ["c01"] => Vorbis.Driver.C01.main; return 0
   | _ => IO.eprintln "usage: vdriver <stream>"; return 2
